@@ -504,6 +504,26 @@ func genUnit(r *rng, kind string, s string) unit {
 			sens("", fmt.Sprintf("def t_%s(self, a=1, b=40030):\n", s), fmt.Sprintf("def t_%s(self, a=1, c=40030):\n", s), "one of the target's optional parameters is renamed")
 		}
 		u.ownLbl = []string{"t_" + s}
+	case "closurerec":
+		// a nested closure that calls itself through its own free variable, held as a free variable of the TARGET function
+		// (nothing binds it to a global, so the module's freeze never walks it and the project loads)
+		u.own = fmt.Sprintf("def mk_%s():\n    def walk(n):\n        return 40030 if n <= 0 else walk(n - 1)\n    def even(n):\n        return True if n == 0 else odd(n - 1)\n"+
+			"    def odd(n):\n        return 40040 == 0 if n == 0 else even(n - 1)\n    def t_%s():\n        v = [walk(2), even(3)]\n        return None\n    return t_%s\n"+
+			"t_%s = target(name=\"t_%s\", function=mk_%s())\n", s, s, s, s, s, s)
+		u.ownLbl = []string{"t_" + s}
+		sens("", "        return 40030 if n <= 0 else walk(n - 1)\n", "        return 40031 if n <= 0 else walk(n - 1)\n", "nested closure that calls itself through its own free variable")
+		sens("", "        return 40040 == 0 if n == 0 else even(n - 1)\n", "        return 40041 == 0 if n == 0 else even(n - 1)\n", "mutually recursive nested closures")
+	case "chain":
+		// a call chain of 120..260 helpers (each helper is 5-6 levels of encoder recursion: far more than 1000 in all)
+		n := 120 + r.below(141)
+		var b strings.Builder
+		fmt.Fprintf(&b, "def c%d_%s(x):\n    return x + 40030\n", n, s)
+		for i := n - 1; i >= 0; i-- {
+			fmt.Fprintf(&b, "def c%d_%s(x):\n    return c%d_%s(x)\n", i, s, i+1, s)
+		}
+		u.defs = b.String()
+		u.use = fmt.Sprintf("c0_%s(1)", s)
+		sens("", "    return x + 40030\n", "    return x + 40031\n", fmt.Sprintf("last function of a call chain of %d helpers", n))
 	case "sharedhelper":
 		// loaded by two packages; no nested load (a module in the middle of a nested load that is waited for by a
 		// second loader is defect D4 of the module loader, area Loader)
@@ -536,7 +556,7 @@ func (u *unit) rebase(k int) {
 var unitKinds = []string{"const", "const", "global", "container", "container", "container", "shared", "fact", "mutual", "closure",
 	"defaults", "nested", "cyclic", "cyclic", "deep", "deep", "predeclared", "environ", "flag", "targetref", "cache", "labels", "helper",
 	"fncontainer", "lambdacycle", "samename", "kwonly", "signature", "builtinalias", "values", "fnvalues", "codecycle",
-	"recshared", "recshared", "hashed", "hashed", "eqdistinct", "eqdistinct", "hostkeys", "hostkeys", "targetsig"}
+	"recshared", "recshared", "hashed", "hashed", "eqdistinct", "eqdistinct", "hostkeys", "hostkeys", "targetsig", "closurerec", "chain"}
 
 // Not generated: "freevarrec" (a nested function that calls itself through a free variable). Such a project
 // does not load: starlark.ExecFile freezes the module's globals and (*Function).Freeze / (*cell).Freeze of the
